@@ -82,12 +82,18 @@ func (s *Spec) Methods(tn *TypeNames) []Method {
 
 // GoVariant describes the user's Go package around the grammar (Stage A).
 type GoVariant struct {
+	// MixedAny: the action methods of rules whose Go type is `any` are spelled
+	// alternately `any` and `interface{}` (identical types), the latter in a
+	// second file: a legal package whose output must not depend on the order in
+	// which the files were parsed.
+	MixedAny  bool
 	FileName  string // main user file; "parser.go" sorts after base.gen.go, "ast.go" before
 	SplitFile string // if non-empty, action methods go to this second file
 	Defect    string // "" or one of the C12 package defects
 }
 
-var stageATypes = &TypeNames{Token: "Token", Error: "Error", Node: []string{"*Node", "*bytes.Buffer", "*strings.Builder", "*yaml.Node"}}
+var stageATypes = &TypeNames{Token: "Token", Error: "Error", Node: []string{"*Node", "*bytes.Buffer", "*strings.Builder", "*yaml.Node",
+	"<-chan *Node", "map[string][]*Node", "any"}}
 
 // GoStageA prints the Go sources of a project for the generator-side
 // simulation: enough for lox to bind actions; bodies are empty.
@@ -100,7 +106,7 @@ func (s *Spec) GoStageA(v GoVariant) map[string]string {
 		files[v.FileName] = ""
 		return files
 	}
-	var head, body strings.Builder
+	var head, body, mixed strings.Builder
 	imports := "import (\n\t\"bytes\"\n\t\"strings\"\n\n\t\"github.com/dcaiafa/loxlex/simplelexer\"\n\t\"gopkg.in/yaml.v3\"\n)\n\n"
 	fmt.Fprintf(&head, "package %s\n\n%s", s.Pkg, imports)
 	head.WriteString("var _ bytes.Buffer\nvar _ strings.Builder\nvar _ simplelexer.Token\nvar _ yaml.Node\n\n")
@@ -185,6 +191,11 @@ func (s *Spec) GoStageA(v GoVariant) map[string]string {
 		if strings.HasPrefix(ret, "(") {
 			zero = "nil, nil"
 		}
+		if v.MixedAny && m.Ret == "any" && nth%2 == 1 && v.Defect == "" {
+			// same type, other spelling, other file
+			fmt.Fprintf(&mixed, "func %s %s(%s) interface{} { return nil }\n\n", recv, m.Name, strings.Join(params, ", "))
+			continue
+		}
 		fmt.Fprintf(&body, "func %s %s(%s) %s { return %s }\n\n", recv, m.Name, strings.Join(params, ", "), ret, zero)
 	}
 	if v.Defect == "extra-methods" {
@@ -223,6 +234,14 @@ func (s *Spec) GoStageA(v GoVariant) map[string]string {
 		files["zz_notes.go"] = "TODO: remember to write the actions\n"
 	case "empty-last-go-file":
 		files["zz_notes.go"] = ""
+	}
+	if mixed.Len() > 0 {
+		// sorts before and after the main file in different variants
+		name := "a_more_actions.go"
+		if v.FileName < "b" {
+			name = "z_more_actions.go"
+		}
+		files[name] = fmt.Sprintf("package %s\n\n%s", s.Pkg, "import (\n\t\"bytes\"\n\t\"strings\"\n\n\t\"gopkg.in/yaml.v3\"\n)\n\nvar _ bytes.Buffer\nvar _ strings.Builder\nvar _ yaml.Node\n\n") + mixed.String()
 	}
 	if v.SplitFile != "" {
 		files[v.FileName] = head.String()
